@@ -65,6 +65,7 @@ type ListObjectsEv struct {
 	Errk  string   `json:"errk"`
 	Err   string   `json:"errmsg"`
 	HC    bool     `json:"hc"`
+	WB1   bool     `json:"wb1,omitempty"` // weighted engine running with resolve-node breadth limit 1 (KF-18 call site)
 }
 
 type ListUsersEv struct {
